@@ -36,12 +36,13 @@ CFG = {
                   "fast path), index_exact and word_summaries_exact (L0/L1/L2 entries = block summaries; i8 clamp, i16/i32 folds "
                   "lossless from FACTOR_L1 = FACTOR_L2 = 32), block_min_sound, sse41_builders_eq_scalar (lane model of the SSE4.1 "
                   "L1/L2 builders = scalar builders), storage_strays_variant_irrelevant(_2); free functions find_close_eq (word "
-                  "skipping), find_open_eq, enclose_eq. NOT PROVED: select1 for WithSelect / WithCsPoppy "
-                  "(select1_noselect_partial covers NoSelect only) - modelled (sampling loops, jump_to + scan_select, "
-                  "partition_point bracket, 9-bit offset walk) and compared with the linear-scan spec by the driver on every "
-                  "request. Tie: tables and constants regenerated each run, every constructor x select support x build variant "
+                  "skipping; any |ws| >= ceil(len/64), i.e. surplus words allowed after the F1 repair), find_open_eq, enclose_eq; "
+                  "select1_eq for NoSelect (None), WithSelect (sampling invariants, jump_to, scan_select) and WithCsPoppy at any "
+                  "rate (sample bracket, core's binary-search partition_point, 9-bit offset walk; select_in_word = C02). "
+                  "Nothing of the property is left unproved at model level; side condition len < 2^31 for the operations that keep an i32 excess - shown necessary for 2^31 <= len < 2^32 by depth_defect_beyond_i32 and find_close_false_match_mechanism (finding F13, manual replay corpus/C04/finding-13-big.manual). "
+                  "Tie: tables and constants regenerated each run, every constructor x select support x build variant "
                   "diffed against the compiled model, itself cross-checked against the linear-scan spec.",
-    "level_note": "Trusts Lean kernel, the table/constant extractor, popcount / select_in_word semantics (C02), the SSE4.1 "
+    "level_note": "select1_eq inherits C02's bv_decide certificate axiom (Kernels.clear_lowest) through select_ctz_eq; no other theorem does. Trusts Lean kernel, the table/constant extractor, popcount semantics, the SSE4.1 "
                   "lane semantics written in Model/BP.lean, and the differential harness. NEON builders unreachable on this host.",
     "technique": "Lean 4 proof (decide +kernel for tables, induction for directory / scans) + differential correspondence vs compiled model and spec",
     "variants": [{"features": []}, {"features": ["simd"]}],
@@ -54,14 +55,17 @@ CFG = {
                    "SuccinctlyVerif/Proof/BPIndex2.lean", "SuccinctlyVerif/Proof/BPFcf.lean", "SuccinctlyVerif/Proof/BPFcf2.lean",
                    "SuccinctlyVerif/Proof/BPFcf3.lean", "SuccinctlyVerif/Proof/BPFast.lean", "SuccinctlyVerif/Proof/BPFast2.lean",
                    "SuccinctlyVerif/Proof/BPSelect.lean", "SuccinctlyVerif/Proof/BPSelect0.lean", "SuccinctlyVerif/Proof/BPSse.lean",
-                   "SuccinctlyVerif/Proof/BPSse2.lean", "SuccinctlyVerif/Proof/BPSse3.lean",
+                   "SuccinctlyVerif/Proof/BPSse2.lean", "SuccinctlyVerif/Proof/BPSse3.lean", "SuccinctlyVerif/Proof/BPSel1.lean",
+                   "SuccinctlyVerif/Proof/BPSample.lean", "SuccinctlyVerif/Proof/BPPart.lean", "SuccinctlyVerif/Proof/BPSelWS.lean",
+                   "SuccinctlyVerif/Proof/BPSelWS2.lean", "SuccinctlyVerif/Proof/BPSelCS.lean", "SuccinctlyVerif/Proof/BPSelCS2.lean",
+                   "SuccinctlyVerif/Proof/BPSelCS3.lean", "SuccinctlyVerif/Proof/BPWrap.lean",
                    "SuccinctlyVerif/Model/BP.lean", "SuccinctlyVerif/Spec/BPNav.lean"],
     "required_theorems": ["SV.Props.C04.byte_tables_eq", "SV.Props.C04.rank1_eq", "SV.Props.C04.find_close_eq",
                           "SV.Props.C04.find_open_eq", "SV.Props.C04.enclose_eq", "SV.Props.C04.find_close_from_eq",
                           "SV.Props.C04.index_exact", "SV.Props.C04.find_close_family_eq", "SV.Props.C04.select0_eq",
-                          "SV.Props.C04.sse41_builders_eq_scalar"],
+                          "SV.Props.C04.sse41_builders_eq_scalar", "SV.Props.C04.select1_eq"],
     "generated": ["C04:", "tables"],
-    "allow_bv_decide": False,
+    "allow_bv_decide": True,   # only through C02's Kernels.selectCtz_eq (select_in_word), used by select1_eq
     "nontrivial": _c04_nontrivial,
     "rule": "request = one structure (words, len, constructor) x one operation x a list of positions, or one kernel "
             "invocation; distinct request lines over a non-empty sequence / a word that is neither 0 nor all-ones",
